@@ -89,6 +89,9 @@ func (eng *engine) runEventLoops(ctx context.Context, numEventLoop int) error {
 			for _, l := range eng.listeners {
 				ln, err := initListener(l.network, l.address, eng.opts)
 				if err != nil {
+					for _, ln := range lns {
+						ln.close()
+					}
 					return err
 				}
 				lns[ln.fd] = ln
@@ -96,6 +99,9 @@ func (eng *engine) runEventLoops(ctx context.Context, numEventLoop int) error {
 		}
 		p, err := netpoll.OpenPoller()
 		if err != nil {
+			for _, ln := range lns {
+				ln.close()
+			}
 			return err
 		}
 		el := new(eventloop)
@@ -107,6 +113,11 @@ func (eng *engine) runEventLoops(ctx context.Context, numEventLoop int) error {
 		el.eventHandler = eng.eventHandler
 		for _, ln := range lns {
 			if err = el.poller.AddRead(ln.packPollAttachment(el.accept), false); err != nil {
+				// This event-loop is not registered yet, nobody else would release its resources.
+				_ = p.Close()
+				for _, ln := range lns {
+					ln.close()
+				}
 				return err
 			}
 		}
@@ -168,6 +179,7 @@ func (eng *engine) activateReactors(ctx context.Context, numEventLoop int) error
 	el.eventHandler = eng.eventHandler
 	for _, ln := range eng.listeners {
 		if err = el.poller.AddRead(ln.packPollAttachment(el.accept0), true); err != nil {
+			_ = p.Close() // the main reactor is not attached to the engine yet
 			return err
 		}
 	}
